@@ -11,7 +11,8 @@ Local Open Scope N_scope.
 (* a request one of whose commits was answered "outcome unknown" ends in an RPC error of the unknown-outcome class —
    never Succeeded = true, never a condition failure; all verbs, both create fall-backs, every interleaving.
    (wf_label: unknown-outcome errors do not wrap a compare failure — true of every engine in /repo, see the
-   classification table the driver checks; client values are not the deletion marker — C03.) *)
+   classification table the driver checks; client values are not the deletion marker — C03; a repair commit is not
+   answered with a bare abort.) *)
 Theorem C09_error_class : forall r0 ls,
   Forall wf_label ls -> let s := run (init_state r0) ls in
   forall t th, get_thread t (s_threads s) = Some th -> t_unk th = true ->
@@ -88,50 +89,46 @@ Example C09_compact_code_order :
   (exists th, get_thread 1 (s_threads s) = Some th /\ t_pc th = PDone (RCompacted 10)) /\ qrevs s = [11].
 Proof. vm_compute. split; [eexists; split; reflexivity|reflexivity]. Qed.
 
-(* ---------- convergence: the full statement, refuted by the faithful model (known findings C09-F1, C09-F2)
-(C09_converges_statement, F1_witness, F2_witness: Proofs/RetryWitness.v) *)
-Theorem C09_converges_refuted : ~ C09_converges_statement.
-Proof. exact converges_refuted. Qed.
-Print Assumptions C09_converges_refuted.
-
-Theorem C09_converges_refuted_empty : exists ls, Forall wf_label ls /\
-  let s := run (init_state 10) ls in quiescentb s = true /\ ~ converged_at s 11 0.
-Proof. exact converges_refuted_empty. Qed.
-Print Assumptions C09_converges_refuted_empty.
-
-(* ---------- convergence, for the complement of the findings ----------
-   labels_ok: along the run (i) f1_free — every commit of a repair write is drawn from {EnvOk, EnvUnknown applied}
-   (takes effect whenever its compare holds); (ii) f2_free — no client value is empty; (iii) wf_label.
-   Everything else is arbitrary: any number of unknown outcomes per key outstanding at once, on any commit of any
-   request, landed or not, faults (unknown + landed) on repair writes, client writes racing the repair between its
-   read, its Deal and its commit, getter failures, compactions, clock ticks, any interleaving.
-   In every quiescent state, for EVERY earlier revision R0 and every key: replaying the published events newer than
-   R0 over the snapshot at R0 gives the snapshot at the committed revision. *)
-Theorem C09_converges_except_findings : forall r0 ls,
-  labels_ok (init_state r0) ls -> let s := run (init_state r0) ls in
+(* ---------- convergence, full strength ----------
+   For every label list (wf_label: the engine contract — an unknown-outcome error does not wrap a compare failure, a
+   repair commit is not answered with a bare abort while its compare still holds — and client values differ from the
+   deletion marker): any number of unknown outcomes per key outstanding at once, on any commit of any request, landed
+   or not; unknown outcomes (landed or not) and definite failures on repair writes; client writes racing the repair
+   between its read, its Deal and its commit; getter failures; empty values; compactions; clock ticks; any interleaving.
+   In every quiescent state, for EVERY earlier revision R0 and every key: replaying the published events newer than R0
+   over the snapshot at R0 gives the snapshot at the committed revision. *)
+Theorem C09_converges : forall r0 ls,
+  Forall wf_label ls -> let s := run (init_state r0) ls in
   quiescentb s = true -> forall R0 k, converged_at s R0 k.
-Proof. exact converges_except_findings. Qed.
-Print Assumptions C09_converges_except_findings.
+Proof. exact converges. Qed.
+Print Assumptions C09_converges.
 
 (* the hypotheses are satisfiable by a run with faults: two landed unknown writes (update, delete), one that did not
    land, a repair write that itself lands with unknown outcome and is repaired again *)
 Example C09_converges_hypotheses_inhabited :
-  labels_ok (init_state 10) repaired_witness /\
+  Forall wf_label repaired_witness /\
   let s := run (init_state 10) repaired_witness in
   quiescentb s = true /\ s_committed s = 18 /\ length (s_events s) = 4%nat /\
   snap s 12 0 = Some (v1, 11) /\ snap s 18 0 = Some (v2, 18) /\ snap s 12 1 = Some (v1, 12) /\ snap s 18 1 = None.
 Proof. exact repaired_witness_ok. Qed.
 
-(* label lists whose repair commits are all effective and whose values are non-empty satisfy labels_ok in every state *)
-Theorem C09_converges_plain : forall r0 ls,
-  Forall label_plain ls -> let s := run (init_state r0) ls in
-  quiescentb s = true -> forall R0 k, converged_at s R0 k.
-Proof. exact converges_plain. Qed.
-Print Assumptions C09_converges_plain.
+(* the fault placements of the former findings C09-F1 (repair write answered "unknown" without being applied, or failing
+   definitely) and C09-F2 (landed empty value), on the repaired retry loop: the landed write is announced exactly once *)
+Example C09_former_findings_converge :
+  (Forall wf_label F1_scenario /\ let s := run (init_state 10) F1_scenario in
+     quiescentb s = true /\ s_committed s = 14 /\ snap s 11 0 = Some (v1, 11) /\ snap s 14 0 = Some (v2, 14) /\
+     map ev_obs (s_events s) = [(VPut, 0, v2, 14, 14); (VCreate, 0, v1, 11, 11)]) /\
+  (Forall wf_label F1_scenario_error /\ let s := run (init_state 10) F1_scenario_error in
+     quiescentb s = true /\ s_committed s = 14 /\ snap s 14 0 = Some (v2, 14) /\
+     map ev_obs (s_events s) = [(VPut, 0, v2, 14, 14); (VCreate, 0, v1, 11, 11)]) /\
+  (Forall wf_label F2_scenario /\ let s := run (init_state 10) F2_scenario in
+     quiescentb s = true /\ s_committed s = 13 /\ snap s 13 0 = Some ([], 13) /\
+     map ev_obs (s_events s) = [(VPut, 0, [], 13, 13); (VCreate, 0, v1, 11, 11)]).
+Proof. exact fixed_scenarios_ok. Qed.
 
 (* the correspondence oracle on observations the model itself produces (not a soundness proof, see props/C09.json "gaps") *)
 Example C09_oracle_on_model :
   (c09_check (self_case sc_clean) = true /\ c09_oracle (self_case sc_clean) = None) /\
-  (c09_check (self_case sc_F1) = true /\ c09_oracle (self_case sc_F1) = Some 1) /\
-  (c09_check (self_case sc_F2) = true /\ c09_oracle (self_case sc_F2) = Some 2).
+  (c09_check (self_case sc_F1) = true /\ c09_oracle (self_case sc_F1) = None) /\
+  (c09_check (self_case sc_F2) = true /\ c09_oracle (self_case sc_F2) = None).
 Proof. exact oracle_on_model. Qed.
